@@ -159,21 +159,25 @@ func (w *walker) walk(v reflect.Value, depth int) {
 			w.tag("nilM")
 			return
 		}
-		type kv struct{ k, v []byte }
+		// keys are rendered first (in isolation) and sorted, then the values are walked in key
+		// order with the main walker, so that reference numbering does not depend on Go's
+		// randomised map iteration order
+		type kv struct {
+			k []byte
+			v reflect.Value
+		}
 		var items []kv
 		it := v.MapRange()
 		for it.Next() {
-			kw := &walker{o: w.o, seen: w.seen}
+			kw := &walker{o: w.o, seen: map[uintptr]int{}}
 			kw.walk(it.Key(), depth+1)
-			vw := &walker{o: w.o, seen: w.seen}
 			val := it.Value()
-			if val.Kind() == reflect.Struct {
+			if val.Kind() == reflect.Struct || val.Kind() == reflect.Array {
 				c := reflect.New(val.Type()).Elem()
 				c.Set(val)
 				val = c
 			}
-			vw.walk(val, depth+1)
-			items = append(items, kv{kw.buf.Bytes(), vw.buf.Bytes()})
+			items = append(items, kv{append([]byte(nil), kw.buf.Bytes()...), val})
 		}
 		sort.Slice(items, func(i, j int) bool { return bytes.Compare(items[i].k, items[j].k) < 0 })
 		w.tag("M")
@@ -181,7 +185,7 @@ func (w *walker) walk(v reflect.Value, depth int) {
 		for _, it := range items {
 			w.buf.Write(it.k)
 			w.tag("=>")
-			w.buf.Write(it.v)
+			w.walk(it.v, depth+1)
 		}
 	case reflect.Struct:
 		w.tag("{" + v.Type().String())
